@@ -237,6 +237,23 @@ def batch_pop(prog, bi, sl, bid, e, recs):
     if start is None or esc is not None:
         return ("violation", "a message of a batch taken from the backlog can leave the recording loop's iteration without being recorded as outstanding",
                 bi.loc(esc[-1]) if esc else bi.loc(nexts[0]))
+    # ... and the loop runs the batch to its end: leaving it early (a `break` at the pull limit) drops what the batch -- or the
+    # Drain, which removes its whole range when dropped -- still holds
+    from mapstate import presence_switches
+    none_ok = set()
+    for sw, pt, at in presence_switches(bi, nexts[0], "option"):
+        if at == "self":
+            none_ok.add(sw)
+        elif at is not None:
+            none_ok |= bi.cfg.edge_dominated(sw, at) | {sw}
+    for u in sorted(blocks):
+        ub = bi.body.blocks[u]
+        if ub.cleanup:
+            continue
+        for v in bi.cfg.succ[u]:
+            if v not in blocks and not bi.body.blocks[v].cleanup and u not in none_ok:
+                return ("violation", "the loop over the batch taken from the backlog can be left before the batch is exhausted: the messages it still holds have left "
+                        "the backlog and are neither delivered nor requeued", bi.loc(u))
     return ("holds", "the backlog hands out a batch; every message of it is recorded as outstanding by the loop over the batch", bi.loc(rec.bb))
 
 
